@@ -65,6 +65,8 @@ fn judge(old: &serde_json::Value, new: &serde_json::Value, loaded: &serde_json::
             }
             let untouched = o == n;
             let class = match (o, n, l) {
+                // a key that is being removed is either still there as it was or gone: anything else is another key's bytes
+                (Some(ov), None, Some(lv)) if ov[0] != lv[0] => "removed-key-back-with-a-value-it-never-had",
                 (Some(_), Some(_), None) => if untouched { "neighbour-key-missing" } else { "previously-persisted-key-missing" },
                 (_, _, Some(lv)) => {
                     let val_known = o.map(|x| x[0] == lv[0]).unwrap_or(false) || n.map(|x| x[0] == lv[0]).unwrap_or(false);
@@ -202,6 +204,8 @@ pub fn run(tier: &str) -> i32 {
                         "persisted-key-lost"
                     } else if failure == "metadata-differs" {
                         "metadata-differs"
+                    } else if failure == "removed-key-back-with-a-value-it-never-had" {
+                        "removed-key-back-with-a-value-it-never-had"
                     } else {
                         "key-holds-a-pair-that-was-never-stored"
                     };
